@@ -244,6 +244,31 @@ def case_constructor(ctx, c, classes, fams):
             ctx.check("C05.evaluate", Fok and Gok and Hok, site + "._evaluate", "row-wise equal to evalfn", icls, witness=dict(w, out={a: b for a, b in out.items()}), coords=coords)
         except Exception as e:
             ctx.raised(cname + "._evaluate", e)
+    # ---- unequal multiplicities (only integer counts and real weights can express them)
+    cnt2 = g.integers(0, 4, n); cnt2[int(g.integers(n))] += 1
+    if n > 1 and cnt2.max() == cnt2[cnt2 > 0].min():
+        cnt2[int(numpy.argmax(cnt2))] += 1
+    arg2 = cnt2 / cnt2.sum() if fam not in ("PopulationAlleleFrequencyDistance", "PopulationAlleleUnavailability", "MultiObjectiveGenomic") else cnt2.astype(float)
+    try:
+        exp2 = numpy.asarray(defn(arg2), dtype=float)
+    except Exception:
+        exp2 = None
+    lat2s = {}
+    for enc in encs:
+        if enc not in ("Integer", "Real") or exp2 is None:
+            continue
+        cname = [nm for nm in classes if family_of(nm) == (fam, enc)][0]
+        try:
+            prob = classes[cname](**kw, **common(enc, n, k, nlat))
+            x2 = cnt2.astype("int64") if enc == "Integer" else cnt2 * 0.11
+            lat2s[enc] = numpy.asarray(prob.latentfn(x2), dtype=float)
+        except Exception as e:
+            ctx.raised(cname + " (unequal multiplicities)", e); continue
+        ctx.check("C05.definition", near(lat2s[enc], exp2)[0], cname + ".latentfn", "latent vector == criterion definition", "%s encoding/unequal multiplicities" % enc,
+                  witness={"class": cname, "x": x2, "data": {a: b for a, b in kw.items()}, "expected_latent": exp2, "got": lat2s[enc]}, coords=coords)
+    if len(lat2s) == 2:
+        ctx.check("C05.encodings", near(lat2s["Integer"], lat2s["Real"])[0], fam + "*SelectionProblem.latentfn", "identical values in every encoding of the same contributions",
+                  "Integer vs Real/unequal multiplicities", witness={"family": fam, "counts": cnt2, "values": lat2s}, coords=coords)
     if len(latents) > 1:
         ks = list(latents)
         for a in ks[1:]:
